@@ -4,4 +4,7 @@ META = dict(
     text="Lean theorems: updateHeads computes exactly (heads minus named parents/links) plus the new block, without duplicates, and preserves 'heads = merged commits no merged commit names as parent' for every parents-first history. Content addressing, closure under links, the height rule and genesis determinism are observed on every block of every generated history; the AddDelta rule is re-derived by the mirror for every local write.",
     design_ref="DESIGN.md section 8, C01/C02/C04", note=_crdt.NOTE,
     technique="Lean 4 proof (head-set invariant) + differential correspondence + DAG well-formedness oracles")
+# the encr engine (C11) also runs for C04: its histories of encrypted documents (incl. encrypted counters) are judged by the
+# height rule through the commits query
+PROP = dict(PROP, engines=PROP["engines"] + [dict(name="encr", drv="encr", timeout=3600)])
 ENGINES = [_crdt.ENGINE]
